@@ -26,7 +26,7 @@ def run_one(d):
 
 def main():
     dirs = [os.path.abspath(a) for a in sys.argv[1:]] or sorted(os.path.join(VERIF, "silence", x) for x in os.listdir(os.path.join(VERIF, "silence")))
-    with ThreadPoolExecutor(5) as ex:
+    with ThreadPoolExecutor(int(os.environ.get("PGF_JOBS", "5"))) as ex:
         out = list(ex.map(run_one, dirs))
     noisy = 0
     for d, res in out:
